@@ -467,6 +467,32 @@ pub fn gen_c20(args: &Args) {
             }
         }
     }
+    // zone offsets on either side of 0 (sites near Greenwich) on the dates where the calendar formula has structure
+    let mut c = 1600;
+    while c <= 2300 {
+        for (m, d) in [(3u32, 1u32), (1, 1), (2, 28), (12, 31)] {
+            for y in [c, c + 1] {
+                let date = ymd(y, m, d);
+                for k in 0..4 {
+                    let _ = k;
+                    let lon = r.range(-120_000, 120_000);
+                    let ga = *pick(&mut r, &[-3600i64, -1800, 0, -900]);
+                    let dd = *pick(&mut r, &[3600i64, 1800, 2700]);
+                    let site = Site { dlat: 0, lat: r.range(-450_000, 450_000), lon, el: 0, gmt: ga };
+                    let mut sb = site;
+                    sb.gmt = ga + dd;
+                    let p = plain(r.range(1, 8) as usize);
+                    let a = call(&site, date, &p);
+                    let b = call(&sb, date, &p);
+                    if a.ok() && b.ok() {
+                        w.emit(json!({"ev": "c20", "kind": "gmt", "d": dd, "site": site_json(&site), "siteb": site_json(&sb),
+                            "date": date_json(date), "p": p.json(), "a": res_json(&a), "b": res_json(&b)}));
+                    }
+                }
+            }
+        }
+        c += 100;
+    }
     let session = session_flush(&mut w);
     let k = w.finish();
     println!("{}", json!({"session": session, "events": k}));
